@@ -590,3 +590,30 @@ h_six!(c20_q_mul_bvd1l8_bvd0, 4, bvd1(8), d1, bvd0(0), d0, *, *=, any, w_none);
 h_six!(c20_q_mul_bvd0_bvd1l8, 4, bvd0(0), d0, bvd1(8), d1, *, *=, any, w_none);
 h_six!(c20_q_add_bvd1l8_bvd0, 4, bvd1(8), d1, bvd0(0), d0, +, +=, any, w_none);
 h_six!(c20_q_xor_bvd0_bvd1l8, 4, bvd0(0), d0, bvd1(8), d1, ^, ^=, any, w_none);
+// (3) a native integer against the same value as a *one-word* vector of the subject's word type,
+//     on a three-word subject (the two routes take different arms of the carry propagation);
+#[inline(always)]
+fn df64x3(r: &RawV) -> Bvf<u64, 3> {
+    Bvf::new([r.v.limb(0), r.v.limb(1), r.v.limb(2)], r.len)
+}
+h_six_int!(c20_q_add_f64x3_u64_vs_f64x1, 6, f64x3(anylen(192)), df64x3, iu64(), du64, v_f64, +, +=, any, w_sym);
+h_six_int!(c20_q_sub_f64x3_u64_vs_f64x1, 6, f64x3(anylen(192)), df64x3, iu64(), du64, v_f64, -, -=, any, w_sym);
+// (4) `/=` and `%=` of an inline Bv by a borrowed heap vector longer than 128 bits whose value
+//     needs those upper bits (quotient 0, remainder = dividend), against `&a op &b`.
+//     The divisor's top bit (bit 129) is concrete so that its number of significant bits, and
+//     with it every allocation size inside div_rem, is a constant; the low 128 bits are symbolic.
+#[inline(always)]
+fn bvd3_top129() -> (Bvd, RawV) {
+    let (w0, w1) = (nd::u64(), nd::u64());
+    (
+        Bvd::new(Box::new([w0, w1, 2u64]) as Box<[u64]>, 130),
+        RawV { len: 130, v: Big::limbs(w0, w1, 2, 0), cap: 192 },
+    )
+}
+macro_rules! w_big_divisor {
+    ($ra:ident, $rb:ident) => {
+        w!($rb.v.limb(0) == 0 && $rb.v.limb(1) == 0 && !$ra.v.is_zero(), "the divisor's low 128 bits are all zero");
+    };
+}
+h_pair!(c20_q_div_ar_afixl3_bvd3top, 6, ar, bvfix(3), afix, bvd3_top129(), d3, /, /=, nz, w_big_divisor);
+h_pair!(c20_q_rem_ar_afixl3_bvd3top, 6, ar, bvfix(3), afix, bvd3_top129(), d3, %, %=, nz, w_big_divisor);
